@@ -21,7 +21,8 @@ warnings.filterwarnings("ignore")
 
 
 def main(argv):
-    if os.environ.get("PYTHONHASHSEED") != "0":
+    # the cold child of a C07 run inherits whatever hash seed its parent runs under (the self-test varies it on purpose)
+    if os.environ.get("PYTHONHASHSEED") != "0" and not (argv and argv[0] == "_c07child" and os.environ.get("PYTHONHASHSEED", "").isdigit()):
         print("harness error: run through ./check (PYTHONHASHSEED must be 0)", file=sys.stderr)
         return kernel.EXIT_HARNESS
     from sim import driver
@@ -37,6 +38,11 @@ def main(argv):
         ap.add_argument("--out", required=True)
         a = ap.parse_args(argv[1:])
         return driver.worker_main(a.prop, a.seed, a.tier, a.first, a.stride, a.count, a.out)
+
+    if argv and argv[0] == "_c07child":
+        from checks import c07
+
+        return c07.child_main()
 
     ap = argparse.ArgumentParser()
     ap.add_argument("prop")
